@@ -121,7 +121,8 @@ def gen(rng, prop, tier):
     cfg = {'listing': rng.choice(['sorted', 'reversed', 'shuffled', 'rotated']),
            'draw': rng.choice(seams.DRAW_STRATEGIES), 'seed': rng.randint(0, 2 ** 31),
            'uuid_seed': rng.randint(0, 2 ** 31), 'knobs': {}}
-    pipeline = prop in ('C11', 'C12') or (prop == 'C14' and rng.random() < 0.45)
+    pipeline = prop in ('C11', 'C12') or (prop == 'C14' and rng.random() < 0.45) \
+        or (prop == 'C13' and rng.random() < 0.25)
     if pipeline:
         k = rng.choice([1, 2, 2, 3, 3, 4]) if prop != 'C12' else rng.choice([1, 2, 3, 3, 4, 4])
         shared = _shared(rng)
@@ -137,7 +138,7 @@ def gen(rng, prop, tier):
         ops = [{'op': 'merge'}]
         if rng.random() < 0.2:
             ops.append({'op': 'merge_again'})   # the same Merger instance run a second time
-        if prop == 'C14':
+        if prop in ('C13', 'C14'):
             cfg['knobs']['n_closest_channels'] = rng.choice([2, 4, 12])
             ops.append({'op': 'convert', 'label': rng.choice(['', 'probe00']),
                         'ampfactor': rng.choice([1, 2.34e-6, 2.5]), 'force': False})
@@ -1057,10 +1058,17 @@ def run_ops(plan, ctx, cfg):
                                        memo=export_memo)
             elif prop == 'C14':
                 check_export_values(ctx, model, out, op, orig_maps)
-            ctx.state(n_probes, bool(op['label']), model.traces is not None,
-                      model.sparse_features is not None,
-                      not np.array_equal(model.spike_clusters, model.spike_templates),
-                      op['ampfactor'] != 1)
+            sc_ = np.asarray(model.spike_clusters)
+            st_ = np.asarray(model.spike_templates)
+            ctx.state(n_probes, probes is not None, bool(op['label']), model.traces is not None,
+                      model.sparse_features is not None, not np.array_equal(sc_, st_),
+                      op['ampfactor'] != 1, n_converts,
+                      int(sc_.max()) + 1 == model.n_templates,
+                      int(st_.max()) + 1 == model.n_templates,
+                      min(int(sc_.max()) + 1 - len(np.unique(sc_)), 3),
+                      str(np.asarray(model.channel_mapping).dtype), bool(op['force']),
+                      tuple(sorted(k_ for k_, v_ in (cfg.get('dataset') or {}).get(
+                          'extras', {}).items() if v_)))
         elif k == 'recurate':
             if model is None or probes is not None:
                 continue
